@@ -58,6 +58,37 @@ Check c28_pinned_links_refuted : exists root items,
   end.
 Print Assumptions c28_pinned_links_refuted.
 
+(** destinations authored by page number (known finding C28-dest-bare-page-number, FIXED by
+    fix_dest_page_reference): the writer replaces the leading integer n of an outline /Dest array or a
+    named-destination array by a reference to page_ids[n], which resolves to the authored page as
+    ISO 32000-1 12.3.2.2 requires (page object ids are pairwise distinct) *)
+Theorem c28_page_number_dest_resolves : forall page_ids p,
+  NoDup page_ids -> (N.to_nat p < length page_ids)%nat ->
+  dest_resolves (Some p) (written_page_number page_ids p) = true.
+Proof. exact page_number_dest_resolves. Qed.
+Check c28_page_number_dest_resolves : forall page_ids p,
+  NoDup page_ids -> (N.to_nat p < length page_ids)%nat ->
+  dest_resolves (Some p) (written_page_number page_ids p) = true.
+Print Assumptions c28_page_number_dest_resolves.
+
+(** ... a number that names no page of the document is left as authored *)
+Theorem c28_page_number_out_of_range_untouched : forall page_ids p,
+  (length page_ids <= N.to_nat p)%nat ->
+  resolve_destination_page page_ids (OInt (Z.of_N p)) = OInt (Z.of_N p).
+Proof. exact page_number_out_of_range_untouched. Qed.
+Check c28_page_number_out_of_range_untouched : forall page_ids p,
+  (length page_ids <= N.to_nat p)%nat ->
+  resolve_destination_page page_ids (OInt (Z.of_N p)) = OInt (Z.of_N p).
+Print Assumptions c28_page_number_out_of_range_untouched.
+
+(** ... and the record of the PINNED behaviour, about the pre-fix writer: never resolves *)
+Theorem c28_pinned_page_number_dest_unresolved : forall page_ids p,
+  dest_resolves (Some p) (written_page_number_pinned page_ids p) = false.
+Proof. exact pinned_page_number_dest_unresolved. Qed.
+Check c28_pinned_page_number_dest_unresolved : forall page_ids p,
+  dest_resolves (Some p) (written_page_number_pinned page_ids p) = false.
+Print Assumptions c28_pinned_page_number_dest_unresolved.
+
 (** non-vacuity: a forest with a non-last sibling that has children and a closed item with a
     closed child that has children *)
 Example c28_nonvacuous :
